@@ -600,4 +600,30 @@ buffered, framing as decided -/
 def mkWriter (wlength : Option Nat) (wchunked : Bool) (hb : Bytes) : C04.W :=
   { length := wlength, chunked := wchunked, headersBuf := some hb }
 
+/-! ## how `ClientRequest._write_bytes` ends (decision table) -/
+
+/-- what `await self._body.write_with_length(writer, content_length)` did -/
+inductive SrcOutcome where
+  | ok            -- the payload was written completely
+  | osError       -- the body source raised OSError (incl. asyncio.TimeoutError)
+  | exception     -- the body source raised any other Exception
+  | cancelled     -- the writer task was cancelled
+deriving Repr, DecidableEq
+
+structure WriteEnd where
+  /-- `await writer.write_eof()` is executed (chunked coding: the terminating `0\r\n\r\n`) -/
+  writesEof : Bool
+  /-- an exception is set on the protocol (the request fails for the caller) -/
+  failsRequest : Bool
+  /-- `conn.close()` -/
+  closesConn : Bool
+deriving Repr, DecidableEq
+
+/-- the `try / except OSError / except CancelledError / except Exception / else` of `_write_bytes` -/
+def writeBytesEnd : SrcOutcome → WriteEnd
+  | .ok => { writesEof := true, failsRequest := false, closesConn := false }
+  | .osError => { writesEof := false, failsRequest := true, closesConn := false }
+  | .exception => { writesEof := false, failsRequest := true, closesConn := false }
+  | .cancelled => { writesEof := false, failsRequest := false, closesConn := true }
+
 end Aio.C02
